@@ -61,10 +61,43 @@ def configs(tier):
     return cs
 
 
+def cli_policy(chk):
+    """the unmet-design policy through the command-line worker (input files), also for a second file in the same process: an unmet design
+    without the continue flag ends with a ValueError and no other exception; the flag of one file does not reach the next"""
+    big = {"kind": "balanced", "scale": 3000000.0, "seed": 1}
+    tiny = {"kind": "balanced", "scale": 200.0, "seed": 1}
+    a = cfg(months=12, loads=big, design={"continue_if_design_unmet": True})
+    b = cfg(months=12, loads=big)
+    c = cfg("RECTANGLE", months=12, loads=tiny)
+    seqs = [[b], [a, b], [a, c]] if chk.tier != "quick" else [[a, b], [c]]
+    r = run_impl("e2e.py", {"mode": "cli_sequence", "sequences": seqs}, timeout=2400)
+    if isinstance(r, dict) and "_error" in r:
+        chk.broken.append({"name": "command-line sequences failed in the harness", "detail": r["_error"][-300:]})
+        return
+    for seq, outs in zip(seqs, r):
+        for pos, (cf, o) in enumerate(zip(seq, outs)):
+            chk.cov["evaluations"] += 1
+            pub = {"file": {k: cf[k] for k in ("geometric_constraints", "design", "loads")}, "position_in_the_process": pos,
+                   "design_sections_of_the_files_before": [x["design"] for x in seq[:pos]]}
+            cont = cf["design"].get("continue_if_design_unmet", False)
+            if len(chk.violations) >= 5:
+                return
+            if "exc" in o:
+                if o["exc"] != "ValueError":
+                    chk.violation("cli-policy", pub, {"exception": o["exc"], "msg": o.get("msg")}, "a run on valid input ends with a design or a ValueError; no other exception type escapes")
+                elif cont:
+                    chk.violation("cli-policy", pub, {"exception": "ValueError", "msg": o.get("msg")}, "with continue_if_design_unmet the unmet design is returned, not an error")
+            elif not cont:
+                chk.violation("cli-policy", pub, {"returned": {k: v for k, v in o.items() if k in ("rc", "nbh", "H", "max", "min")}},
+                              "no candidate can meet the limits and the file does not ask to continue: the run ends with an error instead of a design")
+
+
 def extras(chk):
     rowwise_decisions(chk)
     if len(chk.violations) < 5:
         design_level_search(chk, which="C02")
+    if len(chk.violations) < 5:
+        cli_policy(chk)
 
 
 def run(chk):
@@ -74,6 +107,6 @@ def run(chk):
 def replay(payload):
     from lib import Check
     chk = Check("C02", "quick", payload.get("seed", 0))
-    if payload.get("kind") == "design-stub":
+    if payload.get("kind") in ("design-stub", "cli-policy"):
         return "RERUN"
     return replay_common(chk, payload, "C02", e2e_oracle)
